@@ -1255,7 +1255,11 @@ class Pipeline:
         """
         self._autogen_mapspec_axes()
         for p in parameter:
-            add_mapspec_axis(p, dims={}, axis=axis, functions=self.sorted_functions)
+            # A parameter that is already an array in some MapSpec keeps its axes in the
+            # functions that received it whole: there the new axis comes after `:` axes.
+            dims = {p: self.mapspec_dimensions[p] + 1} if p in self.mapspec_dimensions else {}
+            add_mapspec_axis(p, dims=dims, axis=axis, functions=self.sorted_functions)
+            self._clear_internal_cache()
         self._clear_internal_cache()
         self._validate()
 
